@@ -208,6 +208,8 @@ def main(pid):
         "z3 bit-vector width 4 for counters (overflow is a bad bit)",
         "queue contract lemma (E1, xh/harness_queue.py): the real RandomQueue / PriorityQueue / simple queue under CrossHair with a stubbed `random` "
         "(randrange within its documented range, shuffle = a symbolic permutation), symbolic items/priorities, operation strings of <= 8 put/get",
+        "retry lemma (E1, xh/harness_retry.py; C10 only): create_retry(n) with symbolic n <= 4 and a callable failing on its first j <= 5 attempts; "
+        "uberjob.run(retry=n) on a stored chain where one operation kind (call / read / write / get_modified_time) fails on its first j attempts; sequential engine",
         "cycle lemma (E1, xh/harness_topo.py; C07 only): the real topological_sort / assert_acyclic on symbolic digraphs (N<=4, self loops, parallel edges) "
         "vs the harness' transitive closure; uberjob.run on 3-call plans with symbolic dependency edges in any direction, with / without a registry",
         "pruning lemma (E1, xh/harness_prune.py; C01/C04 only): plans of 4-5 nodes (calls / literals by the condition's kind string) with symbolic edges and "
@@ -243,6 +245,14 @@ def lemma_conditions(pid, tier):
             cs.append(xhrun.Cond("harness_queue", "c04_queue", {"XH_Q": kind, "XH_NINIT": ninit, "XH_OPS": ops}, timeout=300,
                                  label=f"queue_contract_{kind}_init{ninit}_{ops}"))
     cs.append(xhrun.Cond("harness_queue", "c04_create_queue", {}, timeout=300, label="queue_contract_create_queue"))
+    if pid == "C10":
+        # retry: the real create_retry / _coerce_retry, and retry inside a run (calls, store read / write, modified-time query)
+        cs.append(xhrun.Cond("harness_retry", "c10_retry", {}, timeout=600, label="retry_wrapper"))
+        cs.append(xhrun.Cond("harness_retry", "c10_coerce", {}, timeout=300, label="retry_coerce"))
+        for rn in ((1, 2, 3) if tier == "quick" else (1, 2, 3, 4)):
+            for rk in "crwm":
+                cs.append(xhrun.Cond("harness_retry", "c10_run", {"XH_RN": rn, "XH_RK": rk}, timeout=900, label=f"retry_run_n{rn}_{rk}", twin=(rn == 2)))
+        cs.append(xhrun.Cond("harness_retry", "c10_run", {"XH_RN": 2, "XH_RK": "w", "XH_CUSTOM": 1}, timeout=900, label="retry_run_custom_n2_w"))
     if pid == "C07":
         # cycles are rejected up front: the real Kahn implementation on symbolic digraphs, and run() on plans with symbolic dependency edges
         topo = [("c07_kahn", {"XH_TN": 3, "XH_SELF": 1, "XH_MULTI": 0}), ("c07_run", {"XH_REG": 0, "XH_SELF": 0, "XH_TOUT": "last"}),
